@@ -418,8 +418,9 @@ def main(tier, seed):
     def forms_for(name):
         fs = [("int64", lambda v: np.array(v, dtype=np.int64))]
         if name in rotating or tier == "thorough":
-            fs += [("int32", lambda v: np.array(v, dtype=np.int32)), ("uint8", lambda v: np.array(v, dtype=np.uint8)),
-                   ("int16", lambda v: np.array(v, dtype=np.int16))]
+            # signed types only: for unsigned arrays `x - y` wraps around (numpy's own semantics), so every body that takes
+            # |x - y| is outside its closed form there - unsigned vectors are not in the judged domain (DESIGN section 6)
+            fs += [("int32", lambda v: np.array(v, dtype=np.int32)), ("int16", lambda v: np.array(v, dtype=np.int16))]
             def strided(v):
                 w = np.full(2 * len(v) + 1, 3.25); w[1::2] = v
                 return w[1::2]
